@@ -258,7 +258,9 @@ func denorm(r *sim.Rng, m *WMsg, intensity int, st *DenormStats, inLazy bool) {
 	if len(m.Fields) >= 2 && r.Intn(1000) < intensity*2 && !m.hasOneofConflict() {
 		var front, back []*WNode
 		for _, nd := range m.Fields {
-			if r.Chance(1, 3) {
+			// unknown fields keep their place: their relative order is part of
+			// what a decoder retains and re-emits
+			if nd.FD != nil && r.Chance(1, 3) {
 				back = append(back, nd)
 			} else {
 				front = append(front, nd)
